@@ -19,18 +19,20 @@ FUNCTIONS = [
     "someip.sd.ServiceDiscoveryProtocol.sd_message_received",
 ]
 ASSUMPTIONS = [
-    "premise of the statement: at most one instance matches a given entry (one instance in the world; zero matching instances covered by non-matching ids / stopped state)",
+    "premise of the statement: at most one instance matches a given entry (one to three instances in the world, at most one of them claiming the entry; zero matching instances covered by non-matching ids / stopped state)",
     "listener decision: accept or NakSubscription (both explored)",
     "the answer is observed where the announcer queues it (queue_send); its transmission is C15",
 ]
 BOUNDED = SA.BOUNDED
-EXPLANATION = "all ids, counters, TTLs, instance states, listener decisions and prior subscription states are symbolic; the number of options per Subscribe entry and of instances is bounded in shape (bounded_stand_ins)"
+EXPLANATION = "all ids, counters, TTLs, instance states, listener decisions and prior subscription states are symbolic; a Subscribe entry carries arbitrarily many options; one to three instances as in the property's quantifier"
 HARNESSES = [
     SCFG.ob_matches_subscribe_refines,
     SC.ob_entry_properties_refine,
     SA.ob_subscription_echo,
+    SA.ob_from_subscribe_entry,
     SA.ob_instance_handle_subscribe,
     SA.ob_announcer_handle_subscribe,
     SS.ob_sd_message_dispatch,
 ] + SA.SEND_QUEUE_OBLIGATIONS  # the answer reaches the wire through queue_send: once, to its destination only
-EXPECT_COVERS = {"ob_sd_message_dispatch": ["subscribe"], "ob_announcer_handle_subscribe": ["stop-subscribe", "subscribe"]}
+EXPECT_COVERS = {
+    "ob_from_subscribe_entry": ["option", "result"],"ob_sd_message_dispatch": ["subscribe"], "ob_announcer_handle_subscribe": ["stop-subscribe", "subscribe"]}
